@@ -7,7 +7,7 @@ name=$(basename "$f")
 ov=$(mktemp /tmp/ov.XXXXXX.json)
 printf '{"Replace":{"%s/%s/zz_%s":"%s"}}' "$repo" "$dir" "$name" "$f" > "$ov"
 run=$(grep -o 'func Test[A-Za-z0-9_]*' "$f" | sed 's/func //' | paste -sd'|')
-(cd "$repo/$dir" && go test -overlay "$ov" -vet=off -count=1 -timeout 60s -run "^($run)\$" . 2>&1 | tail -15)
-rc=${PIPESTATUS[0]}
+(set -o pipefail; cd "$repo/$dir" && go test -overlay "$ov" -vet=off -count=1 -timeout 60s -run "^($run)\$" . 2>&1 | tail -15)
+rc=$?
 rm -f "$ov"
 exit $rc
